@@ -148,12 +148,15 @@ def gen_spec(rng):
     return {'world': w, 'pre': [H(p) for p in pre], 'txs': txs}
 
 
-def corpus_specs():
+def corpus_specs(ctx=None):
+    """corpus/C02/*.json; a witness `known-*.json` runs only while its known-finding entry exists
+    (known_findings.json, field witness), so that it is reported as KNOWN-FINDING"""
     out = []
     cdir = os.path.join(vlib.VERIF, 'corpus', 'C02')
+    registered = {os.path.basename(f.get('witness', '')) for f in (ctx.findings if ctx else []) if f.get('status') == 'known'}
     if os.path.isdir(cdir):
         for f in sorted(os.listdir(cdir)):
-            if f.endswith('.json'):
+            if f.endswith('.json') and (not f.startswith('known-') or f in registered):
                 out.append(json.load(open(os.path.join(cdir, f))))
     return out
 
@@ -241,27 +244,18 @@ def run_specs(ctx, binary, specs, name):
         greeting, replies = dataq.command_replies(r, plan)
         views = client_view(spec, plan, replies)
         wins = dataq.parse_windows(r.dir)
-        hands = list(r.handoffs)
-        acc = [v for v in views if v['final'] == '250']
-        # every acknowledged transaction has exactly one hand-off that was read to the end, in order
-        okhands = [h for h, w in zip(hands, [w for w in wins if w.forks]) ]
-        done = []
-        hi = 0
+        # the windows that got a 354, each with the hand-off of its child (children start in order)
+        cand, hi = [], 0
         for w in wins:
             if w.forks:
-                if hi < len(hands):
-                    done.append((w, hands[hi]))
+                if w.snap is not None:
+                    cand.append((w, r.handoffs[hi] if hi < len(r.handoffs) else None))
                 hi += 1
-        vi = 0
-        txi = -1
-        for v in views:
-            txi += 1
+        for txi, v in enumerate(views):
             if v['final'] != '250':
                 continue
-            # the window of this transaction: the txi-th DATA command that got 354
-            cand = [(w, h) for (w, h) in done if w.snap is not None]
             idx = sum(1 for vv in views[:txi] if vv['c354'])
-            if idx >= len(cand):
+            if idx >= len(cand) or cand[idx][1] is None:
                 fails.append((case, 'no hand-off recorded', 'fails acknowledged-without-hand-off'))
                 continue
             w, (msg, env) = cand[idx]
@@ -279,10 +273,8 @@ def run_specs(ctx, binary, specs, name):
             plines.append('chk_handoff %s | %s %s | %s' % (' '.join(kv), H(msg), H(env), ' '.join(H(l) for l in lines)))
             pmeta.append((case, msg, env))
             ctx.cov['traces_validated_against_impl'] += 1
-        nacc = len(acc)
-        full = [1 for (w, h) in done if w.snap is not None and w.events and dataq.split_window(w, 10 ** 9)[0][-1:] == ['250']]
         ctx.count('sessions')
-        ctx.count('acknowledged', nacc)
+        ctx.count('acknowledged', sum(1 for v in views if v['final'] == '250'))
     pouts = vlib.run_batch(ctx.driver, plines) if ctx.driver and plines else []
     for (case, msg, env), po in zip(pmeta, pouts):
         if not po.startswith('holds'):
@@ -295,7 +287,7 @@ def run_specs(ctx, binary, specs, name):
 
 
 def known_class(f, case, impl, clause):
-    """class predicates of the known findings of C02 (none recorded so far; see the report)"""
+    """class predicates of the known findings of C02"""
     if f.get('id') == 'c02-dot-stuffed-header-name':
         # a header line that is dot-stuffed although it needs no stuffing hides a Date:/From:/Message-Id: field
         spec = json.loads(case)
@@ -358,7 +350,7 @@ def run(ctx):
     vlib.lean_prepare(ctx, REQUIRED)
     binary = session.build_qsmtpd(ctx)
     if binary:
-        specs = corpus_specs()
+        specs = corpus_specs(ctx)
         ctx.count('corpus', len(specs))
         specs += auth_name_specs()
         n = 260 if ctx.quick() else 4000
